@@ -10,14 +10,14 @@ import apistream
 import apimodel
 import specgen
 
-EXTRA_COQ_FILES = ('GenFacts/SchemaOK.v',)
+EXTRA_COQ_FILES = ('GenFacts/SchemaOK.v', 'GenFacts/SitesOK.v')
 RULE = ('histories of 2..3 files per process from the valid / assign / rejects program generators, some files written twice, plus '
         'targeted histories (same names with different origins and copy numbers, 0.0 vs -0.0 and 1 vs 1.0 vs True attribute values, '
         'queries before building); the last file of each history is rebuilt and written alone in a fresh subprocess and compared '
         'byte for byte; P; write; Q; write against P; Q; write in a fresh process (Q: assignments incl. other kinds of values, origin_reference '
         'changes to a second origin), and write; write of an unchanged specification, incl. 30/300 specifications with PARAMETER / COMPUTATION / CALIBRATION-MEASUREMENT objects whose axes agree or not with a given or derived dimension (K-write-twice). Distinct by history index.')
 ASSUMPTIONS = ['item.name is a plain attribute without setter: renaming an object after creation is not part of the public API and is not generated']
-PARTIAL = ('proved: a new DLISFile starts from the empty specification, only the mode flag is process state, a write leaves the specification it found plus write-time defaults where nothing was given (C14_a_write_leaves_the_specification), and a checked object passes the axis check again (C14_checked_object_passes_the_axis_check_again, D23 repaired); that the second write gives the same BYTES is per run. Re-writing the SAME DLISFile '
+PARTIAL = ('proved: a new DLISFile starts from the empty specification, only the mode flag is process state, a write leaves the specification it found plus write-time defaults where nothing was given (C14_a_write_leaves_the_specification), a checked object passes the axis check again and the whole per-object step is idempotent for every type (C14_checks_and_defaults_are_idempotent, D23 repaired); the composition to identical BYTES of a second write is per run. Re-writing the SAME DLISFile '
            'with DIFFERENT data keeps values derived at the first write (known finding D9, replayed here); edits between writes are compared '
            'with a fresh process for assignments and origin_reference changes')
 
